@@ -147,6 +147,33 @@ def run_mc(module, cfg, workers=8, timeout=1800, cache=True):
     return r
 
 
+def run_proofs(timeout=1500):
+    """tlapm on spec/proofs (unbounded Level-A theorems).  Informational: a proof that does not go through
+    says something about the specification or the provers, never about the code, so it cannot change a verdict."""
+    files = sorted(glob.glob(SPEC + '/proofs/*.tla')) + [SPEC + '/VfsTree.tla', SPEC + '/VfsPaths.tla']
+    key = file_hash(files)
+    cf = WORK + '/proofs/' + key + '.json'
+    os.makedirs(WORK + '/proofs', exist_ok=True)
+    if os.path.exists(cf):
+        r = json.load(open(cf))
+        r['cached'] = True
+        return r
+    t = time.time()
+    res = {'modules': {}, 'cached': False}
+    for mod in ('PathLemmas', 'VfsTreeProofs'):
+        rc, out = sh('timeout %d tlapm --threads 8 --cache-dir %s/proofs/cache -I .. %s.tla 2>&1' % (timeout, WORK, mod), cwd=SPEC + '/proofs', timeout=timeout + 60)
+        m = re.search(r'All (\d+) obligations? proved', out)
+        f = re.search(r'(\d+)/(\d+) obligations failed', out)
+        res['modules'][mod] = {'proved': int(m.group(1)) if m else (int(f.group(2)) - int(f.group(1)) if f else 0),
+                               'obligations': int(m.group(1)) if m else (int(f.group(2)) if f else 0), 'ok': bool(m)}
+    res['ok'] = all(v['ok'] for v in res['modules'].values())
+    res['wall_s'] = round(time.time() - t, 1)
+    res['theorems'] = 'for ANY universe closed under Parent and ANY well-formed tree: every Level-A operation keeps the tree well-formed (ApplyWF, C03) and changes only its frame (FramePrimitives, FrameComposites, FailUnchanged, C01)'
+    if res['ok']:
+        json.dump(res, open(cf, 'w'))
+    return res
+
+
 def ensure_lts(module, cfg, tags=('EDGE', 'STATE', 'UNIVERSE')):
     """emit the labelled transition system of an MC_* instance (cached by spec hash)"""
     key = '%s-%s-%s' % (module, cfg, module_hash(module, [cfg]))
